@@ -1654,7 +1654,7 @@ pub fn classify_model_failure(w: &World, f: &Fail, step: &str, o: &mut Outcome) 
         if let Some(s) = w.plan.default.as_ref().and_then(literal_string) {
             if !literal_is_plain(&s, w.case.lit_style) {
                 let defect = defect_decode(&string_inner(&s, w.case.lit_style));
-                if json::parse(&defect).is_err() && matches!(f, Fail::Parse(_)) {
+                if json::parse(&defect).is_err() && matches!(f, Fail::Parse(_) | Fail::Param(_)) {
                     o.violation(format!("literal-escape-not-decoded:default-json{}", w.via), detail);
                     return;
                 }
